@@ -1620,7 +1620,7 @@ def run_nd(desc, exact, rp):
     line = 'nd ' + wire_part(desc)
     p, err = guarded(lambda: build(desc))
     if p is None:
-        return Case('nd', line, None, [('constructor', 'valid partition rejected: ' + err)], None, rp, exact)
+        return Case('nd', line, None, [('constructor', 'valid partition rejected: ' + err)], None, rp, exact, kind='nd')
 
     def call():
         pts = p.points()
@@ -1638,7 +1638,7 @@ def run_nd(desc, exact, rp):
     res, err = guarded(call)
     problems = []
     if res is None:
-        return Case('nd', line, None, [('nd properties raise', err)], None, rp, exact)
+        return Case('nd', line, None, [('properties raise', err)], None, rp, exact, kind='nd')
     cs, los, his = desc['c'], desc['lo'], desc['hi']
     shape = [len(c) for c in cs]
     size = ncells(desc)
@@ -1646,22 +1646,22 @@ def run_nd(desc, exact, rp):
     tags = set()
     # oracle 1: size, points() in C and F order, index(point) == its multi-index
     if res['size'] != size or len(res['pts']) != size or len(res['ptsF']) != size:
-        problems.append(('nd size', 'size={} len(points)={} for shape {}'.format(res['size'], len(res['pts']), shape)))
+        problems.append(('size', 'size={} len(points)={} for shape {}'.format(res['size'], len(res['pts']), shape)))
     else:
         for k in range(size):
             mi = [int(t) for t in np.unravel_index(k, shape)]
             exp = [cs[ax][i] for ax, i in enumerate(mi)]
             if res['pts'][k] != exp:
-                problems.append(('nd points C order', 'points()[{}]={} expected {}'.format(k, fl(res['pts'][k]), fl(exp))))
+                problems.append(('points C order', 'points()[{}]={} expected {}'.format(k, fl(res['pts'][k]), fl(exp))))
                 break
             mif = [int(t) for t in np.unravel_index(k, shape, order='F')]
             expf = [cs[ax][i] for ax, i in enumerate(mif)]
             if res['ptsF'][k] != expf:
-                problems.append(('nd points F order', 'points(order=F)[{}]={} expected {}'.format(
+                problems.append(('points F order', 'points(order=F)[{}]={} expected {}'.format(
                     k, fl(res['ptsF'][k]), fl(expf))))
                 break
             if res['idx'][k] != mi:
-                problems.append(('nd index of grid point', 'index(points()[{}]={}) = {} expected {}'.format(
+                problems.append(('index of grid point', 'index(points()[{}]={}) = {} expected {}'.format(
                     k, fl(exp), res['idx'][k], mi)))
                 break
     # oracle 2: is_uniform / cell_volume / has_isotropic_cells from the coordinates
@@ -1672,7 +1672,7 @@ def run_nd(desc, exact, rp):
             dev = max(dev, max(abs(x - d[0]) for x in d) / abs(d[0]))
     exp_uni = True if dev <= F(1, 10 ** 9) else (False if dev >= F(1, 1000) else None)
     if exp_uni is not None and res['uni'] != exp_uni:
-        problems.append(('nd is_uniform', 'is_uniform={} but relative stride deviation {}'.format(
+        problems.append(('is_uniform', 'is_uniform={} but relative stride deviation {}'.format(
             res['uni'], float(dev))))
     if exp_uni is True and res['uni']:
         sides = [(c[-1] - c[0]) / (len(c) - 1) if len(c) > 1 else hi - lo for c, lo, hi in zip(cs, los, his)]
@@ -1682,14 +1682,14 @@ def run_nd(desc, exact, rp):
         vs = max(abs(vol), F(1, 10 ** 30))
         if res['vol'] is None or not (res['vol'] == vol if exact and dyadic(vol)
                                       else abs(res['vol'] - vol) <= TOL_REL * vs):
-            problems.append(('nd cell_volume', 'cell_volume={} expected product of cell sides {} = {}'.format(
+            problems.append(('cell_volume', 'cell_volume={} expected product of cell sides {} = {}'.format(
                 'nan' if res['vol'] is None else fs(res['vol']), fl(sides), fs(vol))))
         pairs = list(zip(sides[:-1], sides[1:]))
         margin = [abs(abs(a - b) - (F(1, 10 ** 8) + F(1, 10 ** 5) * abs(b))) for a, b in pairs]
         exp_iso = all(np_isclose(a, b) for a, b in pairs)
         if exact or all(m > F(1, 10 ** 12) for m in margin):
             if res['iso'] != exp_iso:
-                problems.append(('nd has_isotropic_cells', 'has_isotropic_cells={} for cell sides {}'.format(
+                problems.append(('has_isotropic_cells', 'has_isotropic_cells={} for cell sides {}'.format(
                     res['iso'], fl(sides))))
         tags.add('iso' if exp_iso else 'aniso')
         if any(a != b and np_isclose(a, b) for a, b in pairs):
@@ -1710,15 +1710,15 @@ def run_nd(desc, exact, rp):
                 ext *= hi - lo
             tags.add('regular')
             if dyadic(vol) and res['vol'] * cnt != ext:
-                problems.append(('nd cell_volume times count', 'cell_volume {} * {} != volume of the set {}'.format(
+                problems.append(('cell_volume times count', 'cell_volume {} * {} != volume of the set {}'.format(
                     fs(res['vol']), fs(cnt), fs(ext))))
     elif exp_uni is False:
         tags.add('nonuniform')
         if res['vol'] is not None:
-            problems.append(('nd cell_volume', 'cell_volume={} on a non-uniform grid (NaN expected)'.format(
+            problems.append(('cell_volume', 'cell_volume={} on a non-uniform grid (NaN expected)'.format(
                 fs(res['vol']))))
         if res['iso']:
-            problems.append(('nd has_isotropic_cells', 'has_isotropic_cells=True on a non-uniform grid'))
+            problems.append(('has_isotropic_cells', 'has_isotropic_cells=True on a non-uniform grid'))
     if any(len(c) == 1 for c in cs):
         tags.add('length-1-axis')
     if any(c[0] == lo for c, lo in zip(cs, los)):
@@ -1756,7 +1756,7 @@ def run_equiv(axes, exact, rp):
     p, err = guarded(lambda: odl.uniform_partition_fromintv(intv, ns[0] if nd == 1 else ns,
                                                            nodes_on_bdry=list(flags)))
     if p is None:
-        return Case('equiv', line, None, [('equiv uniform_partition_fromintv raises', err)], None, rp, exact, sc,
+        return Case('equiv', line, None, [('uniform_partition_fromintv raises', err)], None, rp, exact, sc,
                     kind='equiv')
     pd = desc_of(p)
 
@@ -1775,19 +1775,19 @@ def run_equiv(axes, exact, rp):
              'lo': [pd['lo'][i] if ns[i] >= 2 else pd['c'][i][0] for i in range(nd)],
              'hi': [pd['hi'][i] if ns[i] >= 2 else pd['c'][i][0] for i in range(nd)]}
     if q is None:
-        problems.append(('equiv nonuniform_partition of a uniform grid raises', '{}: {}'.format(line, errq)))
+        problems.append(('nonuniform_partition of a uniform grid raises', '{}: {}'.format(line, errq)))
     elif not parts_equal(q, exp_q, exact, sc):
-        problems.append(('equiv nonuniform_partition of a uniform grid differs', '{}: got {} expected {}'.format(
+        problems.append(('nonuniform_partition of a uniform grid differs', '{}: got {} expected {}'.format(
             line, show_desc(q), show_desc(exp_q))))
     must_raise = any(n == 1 and not (bl and br) for n, (bl, br) in zip(ns, flags))
     if must_raise:
         if r is not None:
-            problems.append(('equiv uniform_partition_fromgrid invents a limit for a single node',
+            problems.append(('uniform_partition_fromgrid invents a limit for a single node',
                              '{}: got {}'.format(line, show_desc(r))))
     elif r is None:
-        problems.append(('equiv uniform_partition_fromgrid of a uniform grid raises', '{}: {}'.format(line, errr)))
+        problems.append(('uniform_partition_fromgrid of a uniform grid raises', '{}: {}'.format(line, errr)))
     elif not parts_equal(r, pd, exact, sc):
-        problems.append(('equiv uniform_partition_fromgrid of a uniform grid differs',
+        problems.append(('uniform_partition_fromgrid of a uniform grid differs',
                          '{}: got {} expected {}'.format(line, show_desc(r), show_desc(pd))))
     tags = set('flags{}{}'.format(int(bl), int(br)) for (bl, br), n in zip(flags, ns) if n >= 2)
     tags |= set('one-node-flags{}{}'.format(int(bl), int(br)) for (bl, br), n in zip(flags, ns) if n == 1)
